@@ -642,10 +642,15 @@ SUBS = [
              'for is_bday/is_holiday/adjust f,p,m/drange(t, t+9), and every n in [-40,40] whose walk stays in range for add, bdays, inverse; 2-step law. '
              'non-trivial = the configuration has holidays and non-business days',
         floor=0.25),
-    MachineSub('registry', RegistryModel, quick=(2000, 12), thorough=(1500, 20),
+    MachineSub('registry', RegistryModel, quick=(1400, 12), thorough=(1500, 20),
                rule='histories of register(key, holidays, weekend) / re-register with holidays only / register a Calendar object / re-register through the object / '
                     'fetch(key) / populate tables, 3 keys, holidays in a 70-day window; after every step every key known to the model is fetched and is_bday over the window, '
                     'is_holiday, adjust, add(+1) and - for small ranges - the table path add(+4) and bdays are compared with the LAST registration. '
                     'non-trivial = a key was re-registered with different holidays and fetched afterwards; registry cleared at the start of every history',
                floor=0.3, class_floors={'reregistered_after_tables_built': 0.2, 'object_route': 0.2}),
 ]
+
+# quick tier: the runner splits day_laws and drange_1b (quick >= 800) over 4 processes; all_days (few, expensive cases) likewise
+for _s in SUBS:
+    if _s.name == 'all_days':
+        _s.qshards = 4
